@@ -65,6 +65,9 @@ func DateFromProto(proto *dtpb.Date) (Date, error) {
 	case dtpb.Date_YEAR:
 		l = yearLayout
 	}
+	// A Date has no timezone: keep the calendar date of the element, not the
+	// instant at which that date started in the element's timezone.
+	t = time.Date(t.Year(), t.Month(), t.Day(), 0, 0, 0, 0, time.UTC)
 	return Date{t, l}, nil
 }
 
